@@ -539,6 +539,110 @@ def expandPaths (w : World) (via : Str) : Except Err (List Str) :=
 def valuesOf (w : World) (via : Str) : Except Err (List Str) :=
   (w.cache.groupByAll via (-1)).map (fun g => (g.map (fun kv => kv.2.value)).filter (fun v => !v.isEmpty))
 
+/-! ### the remaining `EntryPath` algebra (`path.py`), on strings -/
+
+namespace EP
+
+/-- `EntryPath.valid` -/
+def valid (s : Str) : Bool := dsnElemCounts s > 0
+
+/-- `EntryPath.joined(relative)` -/
+def joined (origin rel : Str) : Str := dsnJoin [origin, rel]
+
+/-- `EntryPath.identify(origin, entry_tag, index).origin` (`f'{entry_tag}[{index}]'`, any `int`) -/
+def identify (origin tag : Str) (index : Int) : Str := dsnJoin [origin, tag ++ '[' :: Str.intToDec index ++ [']']]
+
+/-- `EntryPath.first` — `elements[0]` raises IndexError on a path without elements -/
+def first (s : Str) : Except Err (Str × Int) :=
+  match (dsnElements s).head? with
+  | none => .error .indexError
+  | some el => breakTag el
+
+/-- `EntryPath.last` -/
+def last (s : Str) : Except Err (Str × Int) :=
+  match (dsnElements s).getLast? with
+  | none => .error .indexError
+  | some el => breakTag el
+
+/-- `EntryPath.shift(skip).origin`: `elems[skip:]` for `skip > 0`, `elems[:skip]` for `skip < 0` (Python slice clamping) -/
+def shift (s : Str) (skip : Int) : Str :=
+  let elems := dsnElements s
+  if skip == 0 then dsnJoin elems
+  else if skip > 0 then dsnJoin (elems.drop skip.toNat)
+  else dsnJoin (elems.take (elems.length - (-skip).toNat))
+
+/-- `EntryPath.parent_tag` = `shift(-1).last[0]` -/
+def parentTag (s : Str) : Except Err Str := (last (shift s (-1))).map (·.1)
+
+/-- `EntryPath.de_identify().origin` -/
+def deIdentify (s : Str) : Str := stripIndexGroups s
+
+/-- `EntryPath.contains(entry_tag)` -/
+def contains (s tag : Str) : Bool := (dsnElements (deIdentify s)).contains tag
+
+/-- `EntryPath.consists_of_only(*entry_tags)` -/
+def consistsOfOnly (s : Str) (tags : List Str) : Bool := (dsnElements (deIdentify s)).all (fun t => tags.contains t)
+
+/-- `EntryPath.escaped_origin`: `.`, `[`, `]` get a backslash -/
+def escaped (s : Str) : Str := s.flatMap (fun c => if c = '.' ∨ c = '[' ∨ c = ']' then ['\\', c] else [c])
+
+/-- `EntryPath.relativefy(starts).origin` (`Errors.Logic` unless the path starts with `starts + '.'`) -/
+def relativefy (s starts : Str) : Except Err Str :=
+  if !(Str.startsWith s (starts ++ dot)) then .error .logic else dsnRelativefy s starts
+
+end EP
+
+/-! ### the queries of `Nodes` as data (for the memo layer, `Model/NodesMemo.lean`) -/
+
+/-- the public queries of `Nodes` that return nodes or values (`query.py`) -/
+inductive Query where
+  | by_ (via : Str)
+  | parent (via : Str)
+  | ancestor (via tag : Str)
+  | siblings (via : Str)
+  | children (via : Str)
+  | expand (via : Str)
+  | values (via : Str)
+deriving DecidableEq, Repr
+
+/-- result of a query: resolved nodes as `(full path, class name)`, or the values of `Nodes.values` -/
+inductive Out where
+  | nodes (l : List (Str × Str))
+  | vals (l : List Str)
+deriving DecidableEq, Repr
+
+/-- `[self.__resolve(entry, path) for path, entry in entries.items()]`: resolve in order through `Nodes.by`; the instance
+    cache keeps what was resolved before an exception. -/
+def resolvePaths (w : World) : List (Str × Str) → List Str → Except Err (List (Str × Str)) × List (Str × Str)
+  | insts, [] => (.ok [], insts)
+  | insts, p :: ps =>
+    match nodeBy w insts p with
+    | .error er => (.error er, insts)
+    | .ok (c, insts') =>
+      let r := resolvePaths w insts' ps
+      (r.1.map (fun l => (p, c) :: l), r.2)
+
+/-- the paths a node-returning query resolves (cache-free part of each `factory`) -/
+def queryPaths (w : World) : Query → Except Err (List Str)
+  | .by_ via => (w.cache.by_ via).map (fun _ => [via])
+  | .parent via => (parentPath w via).map (fun p => [p])
+  | .ancestor via tag => (ancestorPath w via tag).map (fun p => [p])
+  | .siblings via => siblingsPaths w via
+  | .children via => childrenPaths w via
+  | .expand via => expandPaths w via
+  | .values _ => .ok []
+
+/-- one query without the `Nodes` memo, threading the resolver's instance cache -/
+def evalQuery (w : World) (insts : List (Str × Str)) : Query → Except Err Out × List (Str × Str)
+  | .values via => ((valuesOf w via).map Out.vals, insts)
+  | q =>
+    match queryPaths w q with
+    | .error er => (.error er, insts)
+    | .ok ps => let r := resolvePaths w insts ps; (r.1.map Out.nodes, r.2)
+
+/-- the query as a function of the world alone -/
+def evalPure (w : World) (q : Query) : Except Err Out := (evalQuery w [] q).1
+
 /-! ### query histories (the "for all permutations of node queries" quantifier of the property) -/
 
 /-- a history of `Nodes.by` queries threading `NodeResolver.__insts`; a query that raises leaves the instance cache
